@@ -81,7 +81,7 @@ def handlers(log):
     return hs
 
 
-def observe_acceptor(kind, ctx_cmd, ctx_data, chunked=False):
+def observe_acceptor(kind, ctx_cmd, ctx_data, chunked=False, prior=False):
     import scp_exec as X
     from scp_rig import ScpRig
     from pynetdicom import _config
@@ -102,6 +102,20 @@ def observe_acceptor(kind, ctx_cmd, ctx_data, chunked=False):
     old = _config.STORE_RECV_CHUNKED_DATASET
     _config.STORE_RECV_CHUNKED_DATASET = chunked
     try:
+        if prior:
+            # an ordinary request of the same kind on its accepted context was served just before (whatever the association
+            # remembers from it must not vouch for the next one)
+            req0, _ = X._request(kind)
+            for p in pdatas_for(req0, acc(kind), acc(kind)):
+                a.dimse.receive_primitive(p)
+            cid0, msg0 = a.dimse.get_msg(block=False)
+            if msg0:
+                a._serve_request(msg0, cid0)
+            for t in set(threading.enumerate()) - before:
+                t.join(2)
+            del log[:]
+            del rig.sent[:]
+            rig.aborts = 0
         for p in pdatas_for(req, ctx_cmd, ctx_data):
             a.dimse.receive_primitive(p)
         # one reactor iteration (association.py _run_reactor): take a completely decoded message and serve it
@@ -117,7 +131,7 @@ def observe_acceptor(kind, ctx_cmd, ctx_data, chunked=False):
     ev19 = "Evt19" in list(a.dul.event_queue.queue)
     answered = any(getattr(s, "MessageIDBeingRespondedTo", None) == X.MSG_ID and getattr(s, "Status", None) in (0x0000, 0xFF00, 0xFF01)
                    for s, _ in rig.sent)
-    return {"kind": kind, "path": "acceptor" + ("/chunked" if chunked else ""), "accepted": sorted(a._accepted_cx), "ctxCmd": ctx_cmd, "ctxData": ctx_data,
+    return {"kind": kind, "path": "acceptor" + ("/chunked" if chunked else "") + ("/after-a-valid-request" if prior else ""), "accepted": sorted(a._accepted_cx), "ctxCmd": ctx_cmd, "ctxData": ctx_data,
             "invoked": bool(log), "answered": bool(answered), "aborted": bool(rig.aborts or ev19), "exc": exc, "log": log,
             "sent": [(s.kind, getattr(s, "Status", None), c) for s, c in rig.sent]}
 
@@ -275,6 +289,8 @@ def run(ctx: Ctx) -> int:
             obs.append(observe_substore(c, d))
         else:
             obs.append(observe_acceptor(kind, c, d))
+            if c != acc(kind):
+                obs.append(observe_acceptor(kind, c, d, prior=True))
             if kind == "STORE":
                 obs.append(observe_acceptor(kind, c, d, chunked=True))
     # the accepted set as the real negotiation leaves it (requestor side): every class of "not accepted" result value
